@@ -9,6 +9,13 @@ def run(ctx):
     if not sf.emitted:
         raise vf.Infra("SinkFaults emitted nothing")
     rep.absorb(ctx.vh_sharded("sinkfaults", sf.emitted, shards=8, timeout=1500))
+    # I/O failures met by Refresh itself (an appender whose directory is missing, a logger that cannot start): every
+    # lifecycle history with such a Refresh, replayed with asynchronous loggers - the calls after it must still return
+    life = ctx.tlc("LogSystem", "MC_LogSystem_life_q", timeout=1500)
+    late = [h for h in life.emitted if any(st.get("op") == "Refresh" and st.get("arg") == "badLate" for st in h.get("h", []))]
+    if not late:
+        raise vf.Infra("no lifecycle history with a late-failing Refresh")
+    rep.absorb(ctx.vh_sharded("lifecycle", late, extra=["--mode", "async"], shards=8, timeout=1500))
     rep.exhaustive = True
     rep.rule = ("Rolling.tla with directory outages (DirDown/DirUp anywhere relative to interval boundaries and to the "
                 "steps of 1-2 writers): FailKeepsFile, ExactlyOnce, NothingLost, SequentialFresh (with the stale-interval "
@@ -17,7 +24,8 @@ def run(ctx):
                 "SinkFaults.tla: all 5-operation histories of Start/Append/Write/Stop (+ break/repair of the console stream) "
                 "on File, Console and RollingFile appenders with healthy, failing (/dev/full, failing stream) or missing "
                 "targets: every call returns (Start: ok or error), none panics or blocks, healthy targets gain exactly one "
-                "line per delivery.  Non-trivial = distinct step sequences / histories."
+                "line per delivery.  All lifecycle histories of LogSystem.tla containing a Refresh that fails late (unknown plugin, missing "
+                "directory, logger start failure) replayed with asynchronous loggers: no call panics or blocks afterwards.  Non-trivial = distinct step sequences / histories."
                 % rep.extra.get("simulated_behaviours", 0))
     rep.assumptions = ["TLC/SANY", "Go toolchain", "verif hooks (virtual clock, park points)", "/dev/full rejects every write",
                        "directory outage = rename of the log directory"]
